@@ -286,10 +286,10 @@ func (h *HttpServer) handleStreamInit(w http.ResponseWriter, r *http.Request) {
 		// The producer's first turn folds into this /init request, so the init
 		// request's custom metadata is what the pipe transports would have
 		// delivered on the first tick batch.
-		finished, err := h.runProduceLoop(ctx, writer, outputSchema, state.(ProducerState), info, stats, auth, transportMeta, callCtx.Cookies, callCtx.stickySink, requestMetadata(req))
+		finished, err := h.runProduceLoopInto(ctx, writer, &buf, outputSchema, state.(ProducerState), info, stats, auth, transportMeta, callCtx.Cookies, callCtx.stickySink, requestMetadata(req))
 		handlerErr = err
 		if err == nil && !finished {
-			// Batch limit reached — append continuation token
+			// Batch limit or max_response_bytes reached — append continuation token
 			token, tokenErr := h.packCursorToken(callID, state, auth)
 			callToken, callErr := h.packCallTokenFor(method, callID, outputSchema, auth, streamID)
 			if tokenErr != nil {
@@ -658,9 +658,9 @@ func (h *HttpServer) handleProducerContinuation(ctx context.Context, w http.Resp
 	// framework's own transport keys are stripped first — the pipe transports
 	// never put them on a tick, and the stream-state value is a sealed cursor
 	// token that must not surface to user code.
-	finished, err := h.runProduceLoop(ctx, writer, schema, state, info, stats, auth, transportMeta, cookies, sink, stripFrameworkTickMetadata(requestMeta))
+	finished, err := h.runProduceLoopInto(ctx, writer, &buf, schema, state, info, stats, auth, transportMeta, cookies, sink, stripFrameworkTickMetadata(requestMeta))
 	if err == nil && !finished {
-		// Batch limit reached — append continuation token
+		// Batch limit or max_response_bytes reached — append continuation token
 		token, tokenErr := h.packCursorToken(callID, state, auth)
 		if tokenErr != nil {
 			err = tokenErr
@@ -983,10 +983,23 @@ func stripFrameworkTickMetadata(meta arrow.Metadata) arrow.Metadata {
 	return arrow.NewMetadata(keys, values)
 }
 
-// runProduceLoop runs the producer state machine until completion or the batch
-// limit is reached. Returns (true, nil) when the producer has finished,
-// (false, nil) when the batch limit was reached (caller should emit a
-// continuation token), or (false, err) on error.
+// runProduceLoop is runProduceLoopInto without a view of the response body, so
+// only the batch limit (never max_response_bytes) ends the turn early.
+func (h *HttpServer) runProduceLoop(ctx context.Context, writer *ipc.Writer, schema *arrow.Schema,
+	state ProducerState, info *methodInfo, stats *CallStatistics, auth *AuthContext, transportMeta map[string]string, cookies map[string]string, sink *stickySink, firstTickMeta arrow.Metadata) (bool, error) {
+	return h.runProduceLoopInto(ctx, writer, nil, schema, state, info, stats, auth, transportMeta, cookies, sink, firstTickMeta)
+}
+
+// runProduceLoopInto runs the producer state machine until completion, the
+// batch limit, or the response-size cap is reached. Returns (true, nil) when
+// the producer has finished, (false, nil) when the batch limit or
+// max_response_bytes was reached (caller should emit a continuation token), or
+// (false, err) on error.
+//
+// body is the buffer writer serializes into — the HTTP response body so far,
+// including anything the caller wrote ahead of the loop (stream header, init
+// logs). It is what max_response_bytes is measured against; nil disables that
+// check.
 //
 // firstTickMeta is surfaced as CallContext.InputMetadata on the FIRST Produce
 // call of this HTTP turn only. On the pipe transports every producer turn is a
@@ -996,7 +1009,7 @@ func stripFrameworkTickMetadata(meta arrow.Metadata) arrow.Metadata {
 // transport keys stripped). If a byte/batch cap makes one turn emit several
 // batches, the later ticks in that turn legitimately see empty metadata — the
 // client has no opportunity to update mid-turn.
-func (h *HttpServer) runProduceLoop(ctx context.Context, writer *ipc.Writer, schema *arrow.Schema,
+func (h *HttpServer) runProduceLoopInto(ctx context.Context, writer *ipc.Writer, body *bytes.Buffer, schema *arrow.Schema,
 	state ProducerState, info *methodInfo, stats *CallStatistics, auth *AuthContext, transportMeta map[string]string, cookies map[string]string, sink *stickySink, firstTickMeta arrow.Metadata) (bool, error) {
 
 	dataBatches := 0
@@ -1137,6 +1150,16 @@ func (h *HttpServer) runProduceLoop(ctx context.Context, writer *ipc.Writer, sch
 
 		// Check batch limit
 		if h.producerBatchLimit > 0 && dataBatches >= h.producerBatchLimit {
+			return false, nil
+		}
+
+		// Check the wire cap. It is soft for producers: rather than failing,
+		// the response ends here with a continuation token and the stream
+		// resumes on the next turn — the same cut-over as the batch limit.
+		// Checked only after a cycle has been flushed, so every turn makes
+		// progress and the body overshoots the cap by at most the one data
+		// batch that crossed it.
+		if body != nil && h.maxResponseBytes > 0 && int64(body.Len()) >= h.maxResponseBytes {
 			return false, nil
 		}
 	}
